@@ -652,6 +652,16 @@ static void exec_op(const Op &op) {
 		bool readln = op.code == OP_READLN;
 		size_t start = (!readln && (op.a[3] & 1) && !m.data.empty()) ? (size_t)(op.a[2] % (m.data.size() + 1)) : 0;
 		bool use_start = !readln && (op.a[3] & 1);
+		if (use_start && (op.a[3] & 2)) {
+			// half of the searches with a start pointer begin at or right after a line-end byte: a start inside a CR LF pair, on a
+			// lone LF, or just past a terminator is where a search that looks behind its own start goes wrong (seeded change C12-A)
+			std::vector<size_t> at;
+			for (size_t i = 0; i < m.data.size(); i++) { char c = m.data[i]; if (c == '\n' || c == '\r' || c == 0) { at.push_back(i); at.push_back(i + 1); } }
+			std::vector<size_t> lf_after_cr;
+			for (size_t i = 1; i < m.data.size(); i++) if (m.data[i] == '\n' && m.data[i - 1] == '\r') lf_after_cr.push_back(i);
+			if (!lf_after_cr.empty() && (op.a[2] / 7) % 3 == 0) { start = lf_after_cr[(size_t)(op.a[2] % lf_after_cr.size())]; probe("search-starts-inside-crlf"); }
+			else if (!at.empty()) { start = at[(size_t)(op.a[2] % at.size())]; probe("search-starts-at-line-end"); }
+		}
 		// reference: position and length of the first end-of-line at or after `start`
 		const std::string &d = m.data;
 		ev_ssize_t wpos = -1;
@@ -1082,7 +1092,7 @@ static void generate(Plan &p, Rng &r) {
 		case OP_ADD: case OP_PREPEND: o.a[2] = flav; break;
 		case OP_ADD_BUFFER: case OP_PREPEND_BUFFER: case OP_ADD_BUFREF: o.a[1] = r.below(NBUF); break;
 		case OP_REMOVE_BUFFER: o.a[1] = r.below(NBUF); o.a[2] = gen_len(r, big); break;
-		case OP_SEARCH_EOL: case OP_READLN: o.a[1] = r.below(5); o.a[2] = r.below(100000); o.a[3] = r.below(2); break;
+		case OP_SEARCH_EOL: case OP_READLN: o.a[1] = r.below(5); o.a[2] = r.below(100000); o.a[3] = r.below(4); break;
 		case OP_FREEZE: case OP_UNFREEZE: o.a[1] = r.below(2); break;
 		case OP_CB_ADD: o.a[1] = r.below(MAXCB); o.a[2] = r.below(8); break;
 		case OP_CB_REMOVE: o.a[1] = r.below(MAXCB); break;
